@@ -27,7 +27,7 @@ ASSUMPTIONS = ['proto/pybind shims of pmc.world', 'numpy bit generators as insta
                'truncated-LCG model compared at n % 8 == 0 only (the partial-byte convention is '
                'the subject of known finding K1)']
 
-SEEDS = [1, 2, 2**31, 2**64 + 5, 2**200 + 9]
+SEEDS = [1, 2, 2**31, 2**64 + 5, 2**200 + 9, 2**64, 3 * 2**64, 2**128, 2**160, 2**48]
 
 
 def _names():
